@@ -160,36 +160,9 @@ def _isolated(p, fields, f):
     decoded_alone(p, _digest(fields), f, name + ".unpack", before=d)
 
 
-def declared_pdu_len(raw: bytes) -> Optional[int]:
-    """length the fixed header declares (4 + 2*idw + seqw + data-field length), None if it cannot be read"""
-    if len(raw) < 4:
-        return None
-    idw, sqw = ((raw[3] >> 4) & 7) + 1, (raw[3] & 7) + 1
-    return 4 + 2 * idw + sqw + ((raw[1] << 8) | raw[2])
-
-
 def unpack_tolerant(cls, raw: bytes, refuses: bool = False):
-    """`cls.unpack(raw)` under the C09 clause for CFDP PDUs: a complete PDU followed by further octets is EITHER decoded
-    exactly as the PDU alone OR refused with a documented error - both are right, whatever the model's decoder does.
-    * model ignores trailing octets (refuses=False): a documented refusal of the longer buffer is answered by decoding
-      the declared PDU alone;
-    * model refuses them (refuses=True, NAK): an implementation that decodes the longer buffer must decode it exactly
-      as the PDU alone (checked here), and the case then counts as the refusal the model shows."""
-    n = declared_pdu_len(raw)
-    longer = n is not None and n < len(raw)
-    try:
-        q = cls.unpack(raw)
-    except Exception as e:  # noqa
-        if longer and not refuses and core.exc_categories(e):
-            return cls.unpack(raw[:n])
-        raise
-    if longer and refuses:
-        alone = cls.unpack(raw[:n])
-        if bytes(alone.pack()) != bytes(q.pack()) or not (alone == q):
-            raise SelfCheckFailure(f"{cls.__name__}: octets after the declared PDU change the decoded PDU")
-        raise ValueError("(canonicalised) a PDU followed by further octets, decoded as the PDU alone")
-    return q
-
+    """see core.cfdp_tolerant (C09 clause: trailing octets are ignored OR refused with a documented error)"""
+    return core.cfdp_tolerant(cls.unpack, raw, refuses=refuses)
 
 
 def _decoded(p, fields, raw: bytes):
